@@ -6,12 +6,12 @@ Require Import Raft.Quorum Raft.QuorumProofs Raft.RaftModel Raft.RaftSys Raft.Ra
 Import ListNotations.
 
 Section Steps1.
-  Variables c0 c1 : list nat.
-  Hypothesis Hcfg : c0 <> [] \/ c1 <> [].
+  Variable F : list (list nat * list nat).
+  Hypothesis HF : inter_family F.
 
   Lemma step_bump : forall s id t lead,
-    Inv c0 c1 s -> n_term (nodes s id) < t ->
-    Inv c0 c1 (set_node s id (become_follower id t lead (nodes s id))).
+    Inv F s -> n_term (nodes s id) < t ->
+    Inv F (set_node s id (become_follower id t lead (nodes s id))).
   Proof.
     intros s id t lead I Ht. apply inv_gsame; try assumption; cbn [become_follower n_term n_log n_vote n_role n_commit].
     - lia.
@@ -24,8 +24,8 @@ Section Steps1.
   Qed.
 
   Lemma step_demote : forall s id lead,
-    Inv c0 c1 s ->
-    Inv c0 c1 (set_node s id (become_follower id (n_term (nodes s id)) lead (nodes s id))).
+    Inv F s ->
+    Inv F (set_node s id (become_follower id (n_term (nodes s id)) lead (nodes s id))).
   Proof.
     intros s id lead I. apply inv_gsame; try assumption; cbn [become_follower n_term n_log n_vote n_role n_commit].
     - lia.
@@ -38,35 +38,35 @@ Section Steps1.
   Qed.
 
   Lemma step_setlead : forall s id lead,
-    Inv c0 c1 s -> Inv c0 c1 (set_node s id (set_lead lead (nodes s id))).
+    Inv F s -> Inv F (set_node s id (set_lead lead (nodes s id))).
   Proof.
     intros s id lead I. apply inv_gsame; try assumption; cbn [set_lead n_term n_log n_vote n_role n_commit n_votes n_match].
     - lia.
     - reflexivity.
     - left. split; reflexivity.
     - right. split; reflexivity.
-    - intros Hr x Hv. apply (hA5 _ _ _ I id x Hr Hv).
-    - intros Hr x. apply (hK5 _ _ _ I id x Hr).
+    - intros Hr x Hv. apply (hA5 _ _ I id x Hr Hv).
+    - intros Hr x. apply (hK5 _ _ I id x Hr).
     - left. reflexivity.
   Qed.
 
-  Lemma step_noop : forall s id, Inv c0 c1 s -> Inv c0 c1 (set_node s id (nodes s id)).
+  Lemma step_noop : forall s id, Inv F s -> Inv F (set_node s id (nodes s id)).
   Proof.
     intros s id I. apply inv_gsame; try assumption.
     - lia.
     - reflexivity.
     - left. split; reflexivity.
     - right. split; reflexivity.
-    - intros Hr x Hv. apply (hA5 _ _ _ I id x Hr Hv).
-    - intros Hr x. apply (hK5 _ _ _ I id x Hr).
+    - intros Hr x Hv. apply (hA5 _ _ I id x Hr Hv).
+    - intros Hr x. apply (hK5 _ _ I id x Hr).
     - left. reflexivity.
   Qed.
 
   Lemma step_record : forall s id m,
-    Inv c0 c1 s ->
+    Inv F s ->
     In m (msgs s) -> m_type m = MsgVoteResp -> m_to m = id -> m_term m = n_term (nodes s id) ->
     n_role (nodes s id) = Candidate ->
-    Inv c0 c1 (set_node s id (record_vote (m_from m) (negb (m_reject m)) (nodes s id))).
+    Inv F (set_node s id (record_vote (m_from m) (negb (m_reject m)) (nodes s id))).
   Proof.
     intros s id m I Hm Hty Hto Htm Hr.
     unfold record_vote. destruct (n_votes (nodes s id) (m_from m)) eqn:Ev.
@@ -76,8 +76,8 @@ Section Steps1.
       + reflexivity.
       + left. split; reflexivity.
       + right. split; reflexivity.
-      + intros Hr' x Hv. apply (hA5 _ _ _ I id x Hr' Hv).
-      + intros Hr' x. apply (hK5 _ _ _ I id x Hr').
+      + intros Hr' x Hv. apply (hA5 _ _ I id x Hr' Hv).
+      + intros Hr' x. apply (hK5 _ _ I id x Hr').
       + left. reflexivity.
     - apply inv_gsame; try assumption; cbn [set_votes n_term n_log n_vote n_role n_commit n_votes n_match].
       + lia.
@@ -86,17 +86,17 @@ Section Steps1.
       + right. split; reflexivity.
       + intros Hr' x Hv. destruct (Nat.eq_dec x (m_from m)) as [Ex|Hx].
         * subst x. rewrite upd_same in Hv. injection Hv as Hv. apply negb_true_iff in Hv.
-          pose proof (hA4 _ _ _ I m Hm Hty Hv) as H. rewrite Htm, Hto in H. exact H.
-        * rewrite upd_other in Hv by exact Hx. apply (hA5 _ _ _ I id x Hr' Hv).
+          pose proof (hA4 _ _ I m Hm Hty Hv) as H. rewrite Htm, Hto in H. exact H.
+        * rewrite upd_other in Hv by exact Hx. apply (hA5 _ _ I id x Hr' Hv).
       + intros Hr'. congruence.
       + left. reflexivity.
   Qed.
 
   Lemma step_ack : forall s id m,
-    Inv c0 c1 s ->
+    Inv F s ->
     In m (msgs s) -> m_type m = MsgAppResp -> m_reject m = false -> m_to m = id ->
     m_term m = n_term (nodes s id) -> n_role (nodes s id) = Leader ->
-    Inv c0 c1 (set_node s id (set_match (upd (n_match (nodes s id)) (m_from m) (m_index m)) (nodes s id))).
+    Inv F (set_node s id (set_match (upd (n_match (nodes s id)) (m_from m) (m_index m)) (nodes s id))).
   Proof.
     intros s id m I Hm Hty Hrej Hto Htm Hr.
     apply inv_gsame; try assumption; cbn [set_match n_term n_log n_vote n_role n_commit n_votes n_match].
@@ -106,16 +106,16 @@ Section Steps1.
     - right. split; reflexivity.
     - congruence.
     - intros _ x. destruct (Nat.eq_dec x (m_from m)) as [Ex|Hx].
-      + subst x. rewrite upd_same. rewrite <- Htm. apply (hK4 _ _ _ I m Hm Hty Hrej).
-      + rewrite upd_other by exact Hx. apply (hK5 _ _ _ I id x Hr).
+      + subst x. rewrite upd_same. rewrite <- Htm. apply (hK4 _ _ I m Hm Hty Hrej).
+      + rewrite upd_other by exact Hx. apply (hK5 _ _ I id x Hr).
     - left. reflexivity.
   Qed.
 
-  Lemma step_selfack : forall s id,
-    Inv c0 c1 s -> n_role (nodes s id) = Leader ->
-    Inv c0 c1 (set_node s id (set_match (upd (n_match (nodes s id)) id (length (n_log (nodes s id)))) (nodes s id))).
+  Lemma step_selfack : forall s id k,
+    Inv F s -> n_role (nodes s id) = Leader -> k <= length (n_log (nodes s id)) ->
+    Inv F (set_node s id (set_match (upd (n_match (nodes s id)) id k) (nodes s id))).
   Proof.
-    intros s id I Hr.
+    intros s id k I Hr Hk.
     apply inv_gsame; try assumption; cbn [set_match n_term n_log n_vote n_role n_commit n_votes n_match].
     - lia.
     - reflexivity.
@@ -123,30 +123,45 @@ Section Steps1.
     - right. split; reflexivity.
     - congruence.
     - intros _ x. destruct (Nat.eq_dec x id) as [Ex|Hx].
-      + subst x. rewrite upd_same. pose proof (hK11 _ _ _ I id Hr) as H. unfold nd in H. lia.
-      + rewrite upd_other by exact Hx. apply (hK5 _ _ _ I id x Hr).
+      + subst x. rewrite upd_same. pose proof (hK11 _ _ I id Hr) as H. unfold nd in H. lia.
+      + rewrite upd_other by exact Hx. apply (hK5 _ _ I id x Hr).
     - left. reflexivity.
   Qed.
 
-  Lemma step_commit : forall s id,
-    Inv c0 c1 s -> n_role (nodes s id) = Leader ->
-    Inv c0 c1 (set_node s id (maybe_commit c0 c1 (nodes s id))).
+  Lemma step_lower : forall s id f,
+    Inv F s -> (forall x, f x <= n_match (nodes s id) x) ->
+    Inv F (set_node s id (set_match f (nodes s id))).
   Proof.
-    intros s id I Hr. set (n := nodes s id) in *.
+    intros s id f I Hf.
+    apply inv_gsame; try assumption; cbn [set_match n_term n_log n_vote n_role n_commit n_votes n_match].
+    - lia.
+    - reflexivity.
+    - left. split; reflexivity.
+    - right. split; reflexivity.
+    - intros Hr x Hv. apply (hA5 _ _ I id x Hr Hv).
+    - intros Hr x. pose proof (hK5 _ _ I id x Hr) as H5. unfold nd in H5. pose proof (Hf x). lia.
+    - left. reflexivity.
+  Qed.
+
+  Lemma step_commit : forall s id cfg,
+    Inv F s -> In cfg F -> n_role (nodes s id) = Leader ->
+    Inv F (set_node s id (maybe_commit (fst cfg) (snd cfg) (nodes s id))).
+  Proof.
+    intros s id cfg I Hin Hr. set (n := nodes s id) in *. set (c0 := fst cfg). set (c1 := snd cfg).
     assert (Hsame : forall n', n_term n' = n_term n -> n_log n' = n_log n -> n_vote n' = n_vote n ->
               n_role n' = n_role n -> n_votes n' = n_votes n -> n_match n' = n_match n ->
               (n_commit n' = n_commit n \/
                (n_commit n' <= length (n_log n') /\
                 (n_commit n' = 0 \/
-                 exists t0 k0, t0 <= n_term n' /\ committed_at c0 c1 s t0 k0 /\ n_commit n' <= k0 /\
+                 exists t0 k0, t0 <= n_term n' /\ committed_at F s t0 k0 /\ n_commit n' <= k0 /\
                    firstn (n_commit n') (n_log n') = firstn (n_commit n') (LL s t0)))) ->
-              Inv c0 c1 (set_node s id n')).
+              Inv F (set_node s id n')).
     { intros n' Et El Ev Ero Evs Em Hc. apply inv_gsame; try assumption; fold n.
       - lia.
       - left. split; assumption.
       - right. split; assumption.
-      - intros Hr' x Hv. rewrite Et. rewrite Evs in Hv. apply (hA5 _ _ _ I id x); unfold nd; fold n; congruence.
-      - intros Hr' x. rewrite Et, Em. apply (hK5 _ _ _ I id x Hr). }
+      - intros Hr' x Hv. rewrite Et. rewrite Evs in Hv. apply (hA5 _ _ I id x); unfold nd; fold n; congruence.
+      - intros Hr' x. rewrite Et, Em. apply (hK5 _ _ I id x Hr). }
     unfold maybe_commit. fold n.
     destruct (joint_committed_index c0 c1 (fun i => Some (n_match n i))) as [mci|] eqn:Ej;
       [|apply Hsame; try reflexivity; left; reflexivity].
@@ -154,23 +169,23 @@ Section Steps1.
       [|apply Hsame; try reflexivity; left; reflexivity].
     apply andb_true_iff in Ec as [Ec1 Ec2]. apply Nat.ltb_lt in Ec1. apply Nat.eqb_eq in Ec2.
     apply Hsame; try reflexivity. right. cbn [set_commit n_commit n_log n_term].
-    pose proof (hA8 _ _ _ I id ltac:(unfold nd; fold n; congruence)) as Hpos. unfold nd in Hpos. fold n in Hpos.
+    pose proof (hA8 _ _ I id ltac:(unfold nd; fold n; congruence)) as Hpos. unfold nd in Hpos. fold n in Hpos.
     assert (Hrange : 1 <= mci <= length (n_log n)) by (apply term_at_range; lia).
-    pose proof (hW5 _ _ _ I id Hr) as HLL. unfold nd in HLL. fold n in HLL.
+    pose proof (hW5 _ _ I id Hr) as HLL. unfold nd in HLL. fold n in HLL.
     split; [lia|]. right. exists (n_term n), mci. split; [lia|]. split; [|split; [lia|rewrite HLL; reflexivity]].
     split.
     - split; [rewrite HLL; exact Hrange|rewrite HLL; exact Ec2].
     - destruct (joint_committed_index_spec c0 c1 (fun i => Some (n_match n i))) as (_ & Hspec & _).
       destruct (Hspec mci Ej) as [Hsat _].
-      eapply Qr_mono; [|exact Hsat]. intros x Hx. unfold acked_ge, ack_of in Hx. apply Nat.leb_le in Hx.
-      unfold ackedp. apply Nat.leb_le. pose proof (hK5 _ _ _ I id x Hr) as H. unfold nd in H. fold n in H. lia.
+      eapply Qr_mono; [|exact (Qr_intro F cfg _ Hin Hsat)]. intros x Hx. unfold acked_ge, ack_of in Hx. apply Nat.leb_le in Hx.
+      unfold ackedp. apply Nat.leb_le. pose proof (hK5 _ _ I id x Hr) as H. unfold nd in H. fold n in H. lia.
   Qed.
 
   Lemma step_heartbeat : forall s id m,
-    Inv c0 c1 s ->
+    Inv F s ->
     In m (msgs s) -> m_type m = MsgHeartbeat -> m_to m = id -> m_term m = n_term (nodes s id) ->
     n_role (nodes s id) = Follower ->
-    Inv c0 c1 (add_msgs (set_node s id (fst (handle_heartbeat id m (nodes s id))))
+    Inv F (add_msgs (set_node s id (fst (handle_heartbeat id m (nodes s id))))
                         (snd (handle_heartbeat id m (nodes s id)))).
   Proof.
     intros s id m I Hm Hty Hto Htm Hr. set (n := nodes s id) in *.
@@ -186,12 +201,12 @@ Section Steps1.
         * congruence.
         * destruct (commit_to_spec _ _ _ _ Ec) as [[-> _]|(-> & Hlt & Hle)]; [left; reflexivity|].
           right. split; [exact Hle|]. right.
-          destruct (hK10 _ _ _ I m Hm Hty) as [Hga HCP]. rewrite Hto, Htm in Hga. rewrite Htm in HCP.
+          destruct (hK10 _ _ I m Hm Hty) as [Hga HCP]. rewrite Hto, Htm in Hga. rewrite Htm in HCP.
           destruct HCP as [HlenLL [Hz|(t0 & k0 & Ht0 & Hc0 & Hk0)]]; [lia|].
           exists t0, k0. split; [exact Ht0|]. split; [exact Hc0|]. split; [exact Hk0|].
-          destruct (hK3 _ _ _ I id) as [Hk3a Hk3b]. unfold nd in Hk3a, Hk3b. fold n in Hk3a, Hk3b.
+          destruct (hK3 _ _ I id) as [Hk3a Hk3b]. unfold nd in Hk3a, Hk3b. fold n in Hk3a, Hk3b.
           assert (HLLne : LL s (n_term n) <> []) by (intros E0; rewrite E0 in HlenLL; cbn in HlenLL; lia).
-          destruct (LC_le c0 c1 Hcfg s I t0 k0 (n_term n) Hc0 Ht0 HLLne) as [_ Hhas].
+          destruct (LC_le F HF s I t0 k0 (n_term n) Hc0 Ht0 HLLne) as [_ Hhas].
           rewrite (firstn_agree_le _ _ _ _ _ Hk3b Hga).
           apply (firstn_agree_le _ _ _ k0); [exact Hhas|exact Hk0].
       + intros m' [<-|[]]. apply harmless_msg_ok. reflexivity.
@@ -199,7 +214,7 @@ Section Steps1.
       apply inv_add_msgs; [|intros m' []]. apply step_noop. exact I.
   Qed.
 
-  Lemma step_junk : forall s m, Inv c0 c1 s -> harmless m = true -> Inv c0 c1 (add_msgs s [m]).
+  Lemma step_junk : forall s m, Inv F s -> harmless m = true -> Inv F (add_msgs s [m]).
   Proof.
     intros s m I H. apply inv_add_msgs; [exact I|]. intros m' [<-|[]]. apply harmless_msg_ok. exact H.
   Qed.
